@@ -9,8 +9,8 @@ BASELINE = ("cd /repo && cargo nextest run --workspace --no-fail-fast --test-thr
             "|| cargo test --workspace --no-fail-fast --offline")
 
 CHECKS = {
-    'C12': dict(technique="Coq proof (lock-step induction over the renderer's stack machine) that the wide renderer on an instance of a symbolic document emits the instances of the symbolic renderer's events + per-case certified checks (extracted sym_of / inst / render_wide) that the implementation's documents for the units 1,2,3,4,8 are instances of one symbolic document and that its rendering equals the wide renderer + line-by-line oracle",
-        text="Proof with a known finding. Proved for every symbolic document D and every unit u (C12_symbolic_indentation): rendering inst u D when nothing wraps emits the same text atoms whatever the unit and, after every layout line break, a*u+b blanks with (a, b) independent of u; b = 0 gives a whole multiple of the unit (C12_layout_line_is_multiple), b <> 0 arises only under Align (comment continuation lines), and lines inside a text atom are not layout lines: the property's exemptions. sym_of is proved sound (C12_sym_of_sound). Theorem B: when width >= room d (all text widths plus all positive nests) the real renderer equals the wide renderer (C12_wide_enough) and lays inst u D out as the instance of the one symbolic layout (C12_real_renderer_scales); the extracted room is evaluated on every dumped document. Tie, on every case: K2-scale - the documents the implementation builds for tab_spaces 1,2,3,4,8 are inst u of ONE symbolic document computed from the units 2 and 3 (so a literal 2, a forgotten nest or tab_spaces in a width computation breaks the obligation); K3-wide - the implementation's rendering at width 10^6 equals the model's wide renderer on its document. Oracle: the raw outputs of the five units, line by line against the symbolic line table; a line whose indentation comes from nests alone must have no constant part. Known finding F7 (stray blank after a line break inside a flow), by class.",
+    'C12': dict(technique="Coq proof (lock-step induction over the renderer's stack machine) that the wide renderer on an instance of a symbolic document emits the instances of the symbolic renderer's events + Coq proof (binary logical relation over all stylists and converters) that the converter is parametric in tab_spaces + per-case certified checks (extracted sym_of / inst / render_wide) that the implementation's documents for the units 1,2,3,4,8 are instances of one symbolic document and that its rendering equals the wide renderer + line-by-line oracle",
+        text="Proof with a known finding. Proved for every symbolic document D and every unit u (C12_symbolic_indentation): rendering inst u D when nothing wraps emits the same text atoms whatever the unit and, after every layout line break, a*u+b blanks with (a, b) independent of u; b = 0 gives a whole multiple of the unit (C12_layout_line_is_multiple), b <> 0 arises only under Align (comment continuation lines), and lines inside a text atom are not layout lines: the property's exemptions. sym_of is proved sound (C12_sym_of_sound). Theorem B: when width >= room d (all text widths plus all positive nests) the real renderer equals the wide renderer (C12_wide_enough) and lays inst u D out as the instance of the one symbolic layout (C12_real_renderer_scales); the extracted room is evaluated on every dumped document. Theorem C (TabRel.v, TabProofs.v, TabParam.v): for any two non-zero units the converter's documents for one tree are instances of ONE symbolic document, with equal conversion counts (C12_converter_parametric_in_unit: a relation rdoc between documents that differ only in unit nests is preserved by every builder, stylist operation and converter, established for build c1 t / build c2 t by induction on the tree); with A and B, C12_indentation_scales is the property over the model for every tree, configuration and pair of non-zero units. Tie, on every case: K2-scale - the documents the implementation builds for tab_spaces 1,2,3,4,8 are inst u of ONE symbolic document computed from the units 2 and 3 (so a literal 2, a forgotten nest or tab_spaces in a width computation breaks the obligation); K3-wide - the implementation's rendering at width 10^6 equals the model's wide renderer on its document. Oracle: the raw outputs of the five units, line by line against the symbolic line table; a line whose indentation comes from nests alone must have no constant part. Known finding F7 (stray blank after a line break inside a flow), by class.",
         note='Trusted: Coq kernel (no axioms); extraction; the Doc dump through format_source_inspect (public pretty::Doc enum); that the converter is parametric in the unit is CHECKED per case, not proved over the converter model.',
         design='§4 C12'),
     'C13': dict(technique='Coq proofs (list/byte-offset arithmetic, structural induction on the tree) over a Gallina model of partial.rs and the utils.rs helpers, reusing the converter model + differential correspondence K6 (class, returned range, bytes) + splice oracle',
